@@ -313,12 +313,16 @@ impl ParallelCacheState {
             // If it is marked as selfdestructed inside revm
             // we need to changed state to destroyed.
             if is_destructed {
+                // Publish the storage-known status before clearing the slots: a reader that
+                // inserts a value fetched from the database after the clearing then sees the new
+                // status and must not keep that value (see `db_storage`).
+                #[cfg(feature = "verif-hooks")]
+                crate::verif::rt::pt1("cache_set_status", crate::verif::rt::fnv(address.as_slice()));
+                let transition = self.get_account_mut(address).selfdestruct();
                 #[cfg(feature = "verif-hooks")]
                 crate::verif::rt::pt1("cache_clear_storage", crate::verif::rt::fnv(address.as_slice()));
                 self.storage.remove(&address);
-                #[cfg(feature = "verif-hooks")]
-                crate::verif::rt::pt1("cache_set_status", crate::verif::rt::fnv(address.as_slice()));
-                return self.get_account_mut(address).selfdestruct();
+                return transition;
             }
 
             // Note: it can happen that created contract get selfdestructed in same block
@@ -332,12 +336,12 @@ impl ParallelCacheState {
             if is_created {
                 let info = account.info;
                 #[cfg(feature = "verif-hooks")]
-                crate::verif::rt::pt1("cache_clear_storage", crate::verif::rt::fnv(address.as_slice()));
-                self.storage.remove(&address);
-                #[cfg(feature = "verif-hooks")]
                 crate::verif::rt::pt1("cache_set_status", crate::verif::rt::fnv(address.as_slice()));
                 let (transition, changed_slots) =
                     self.get_account_mut(address).newly_created(info.clone(), changed_storage);
+                #[cfg(feature = "verif-hooks")]
+                crate::verif::rt::pt1("cache_clear_storage", crate::verif::rt::fnv(address.as_slice()));
+                self.storage.remove(&address);
                 self.contracts.entry(info.code_hash).or_insert_with(|| info.code.clone().unwrap());
                 (Some(transition), Some(changed_slots))
             }
@@ -349,13 +353,14 @@ impl ParallelCacheState {
             // pre-existing empty accounts are unmarked as touched. Therefore, an account that
             // reaches the commit layer as touched, empty, and not created must be cleared.
             else if is_empty {
-                #[cfg(feature = "verif-hooks")]
-                crate::verif::rt::pt1("cache_clear_storage", crate::verif::rt::fnv(address.as_slice()));
-                self.storage.remove(&address);
                 drop(changed_storage);
                 #[cfg(feature = "verif-hooks")]
                 crate::verif::rt::pt1("cache_set_status", crate::verif::rt::fnv(address.as_slice()));
-                (self.get_account_mut(address).touch_empty_eip161(), None)
+                let transition = self.get_account_mut(address).touch_empty_eip161();
+                #[cfg(feature = "verif-hooks")]
+                crate::verif::rt::pt1("cache_clear_storage", crate::verif::rt::fnv(address.as_slice()));
+                self.storage.remove(&address);
+                (transition, None)
             } else {
                 let (transition, changed_slots) =
                     self.get_account_mut(address).change(account.info, changed_storage);
@@ -579,10 +584,12 @@ impl<'a, DB: DatabaseRef> ParallelStateView<'a, DB> {
         }
         // As in revm State::storage_ref, the account is not guaranteed to be cached. In that case,
         // the backing database remains the source of truth.
-        let is_storage_known =
+        let storage_known = || {
             self.cache.accounts.get(&address).is_some_and(|account| {
                 account.status.is_storage_known() || account.account.is_none()
-            });
+            })
+        };
+        let is_storage_known = storage_known();
 
         let value = if is_storage_known {
             U256::ZERO
@@ -591,12 +598,19 @@ impl<'a, DB: DatabaseRef> ParallelStateView<'a, DB> {
         };
         #[cfg(feature = "verif-hooks")]
         crate::verif::rt::pt2("cache_fill_storage", crate::verif::rt::fnv(address.as_slice()), is_storage_known as usize);
+        // The account may have been destroyed, re-created or cleared while the database was being
+        // read. Commit publishes the new status before it clears the account's slots, and the map
+        // guard held below orders this insert against that clearing: either the clearing follows
+        // and wipes the insert, or the status read under the guard already says that the database
+        // value is obsolete.
+        let fresh = |value: U256| if !is_storage_known && storage_known() { U256::ZERO } else { value };
         let value = if let Some(slots) = self.cache.storage.get(&address) {
-            *slots.entry(index).or_insert(value).value()
+            *slots.entry(index).or_insert(fresh(value)).value()
         } else {
             match self.cache.storage.entry(address) {
-                Entry::Occupied(entry) => *entry.get().entry(index).or_insert(value).value(),
+                Entry::Occupied(entry) => *entry.get().entry(index).or_insert(fresh(value)).value(),
                 Entry::Vacant(entry) => {
+                    let value = fresh(value);
                     *entry.insert(Default::default()).entry(index).or_insert(value).value()
                 }
             }
